@@ -36,10 +36,31 @@ size_t    g_wk_sched;  /* wake-ups of the worker threads (wake or wake1 on tq_sc
 size_t    g_wk_sched_all; /* of which: wake-all */
 size_t    g_wk_drain;  /* nni_cv_wake on tq_wait_cv (drain waiters) */
 bool      g_cv_waited; /* nni_cv_wait was called */
+bool      g_expire_unit; /* constant of the harness: the unit runs nni_aio_expire_loop as a thread */
 bool      g_worker_unit; /* constant of the harness: the unit runs nni_taskq_thread as a thread */
 size_t    g_cv_fini;   /* nni_cv_fini calls */
 size_t    g_mtx_fini;  /* nni_mtx_fini calls */
 size_t    g_thr_init, g_thr_run, g_thr_fini;
 int       g_thr_init_fail_at; /* nni_thr_init call number that fails (<0: none) */
 int       g_thr_init_rv;
+
+/* --- expire-loop units (TQ_WITH_AIO: real src/core/aio.c in the TU as well) --- */
+nni_aio_expire_q *g_eq;   /* the expire queue */
+nni_cv   *g_cv_eq;        /* its condition variable */
+size_t    g_wk_eq;        /* wake-ups on it */
+nni_aio  *g_a0, *g_a1;    /* the aios on its list at entry, in list order */
+size_t    g_na;           /* how many of them are listed */
+nni_time  g_now;          /* last value handed out by nni_clock (strictly increasing) */
+size_t    g_fire_n[2];    /* calls of the provider cancel function per aio */
+int       g_fire_rv[2];   /* code of the last one */
+void     *g_fire_arg[2];  /* argument of the last one */
+size_t    g_left[2];      /* aio still listed when the thread went to sleep (left to its provider) */
+bool      g_ok0[2];       /* a_expire_ok of the operation in flight at entry */
+bool      g_cancel_finishes; /* provider cancel function completes the aio with the code given (REAL nni_aio_finish_error) */
+bool      g_race;         /* while the lock is dropped for g_a0's cancel call: g_a1 completes normally and is started again */
+bool      g_race_done;
+nng_duration g_race_timeout; /* timeout of the operation started in the race */
+size_t    g_eq_sleeps;    /* nni_cv_until calls on the expire cv */
+uint32_t  g_random;
+size_t    g_reaped;
 #endif
